@@ -481,6 +481,14 @@ def visit_agreement_rule(crate, prop, rule="C12.R2"):
         ok = (named == vis) and (named == gen) and ok_inline
         r.inst(impl=self_ty, where="%s:%s" % (file, line), named=sorted(named), visited=sorted(vis), generics_visited=sorted(gen),
                inlined=sorted((mentioned("inline", ("inline",)) or set())), forwarded=sorted(fwd), ok=ok)
+        if not named and (vis or gen):
+            nb = fns.get("name")
+            helpers = sorted({hb.path for blk, tt in (nb.calls() if nb is not None else []) if not nb.is_cleanup(blk) for hb in crate.call_targets(nb, tt, ()) if hb.raw.get("impl_trait") != "TS"})
+            if helpers:
+                # name() hands the work to a function of the crate that was not followed (a trait method, a shared helper):
+                # which parameters it names is not read
+                r.fail(prop, "anchor-missing names mentioned by %s::name" % self_ty, "name() is computed by %s, which this rule does not follow" % helpers, file, line)
+                continue
         if named != vis:
             r.fail(prop, "visit-mismatch %s" % self_ty, "name() mentions %s but visit_generics() visits %s: the type argument would be %s" %
                    (sorted(named), sorted(vis), "used without import" if named - vis else "imported without use"), file, line)
